@@ -241,11 +241,12 @@ type hdrPlan struct {
 	Mode     string        // send | firstmsg | trailer | grpcapi
 	Trailers []metadata.MD // SetTrailer calls
 	Fail     bool          // handler returns an error at the end
+	Reject   bool          // streams: the handler's first SendMsg is one the codec rejects (not a proto message); it carries on
 }
 
 // spellings fixes one spelling per lower-cased key so that keys differing only by case never occur (I3).
 func genPlan(rng *rand.Rand) hdrPlan {
-	p := hdrPlan{Mode: []string{"send", "firstmsg", "trailer", "grpcapi"}[rng.Intn(4)], Fail: rng.Intn(4) == 0}
+	p := hdrPlan{Mode: []string{"send", "firstmsg", "trailer", "grpcapi"}[rng.Intn(4)], Fail: rng.Intn(4) == 0, Reject: rng.Intn(4) == 0}
 	spell := map[string]string{}
 	fix := func(md metadata.MD) metadata.MD {
 		out := metadata.MD{}
@@ -278,7 +279,7 @@ func planString(p hdrPlan, req metadata.MD, kind string) map[string]any {
 	for _, s := range p.Trailers {
 		trs = append(trs, mdInput(s))
 	}
-	return map[string]any{"kind": kind, "request_md": mdInput(req), "set_header": sets, "mode": p.Mode, "set_trailer": trs, "fail": p.Fail}
+	return map[string]any{"kind": kind, "request_md": mdInput(req), "set_header": sets, "mode": p.Mode, "set_trailer": trs, "fail": p.Fail, "first_send_rejected_by_codec": p.Reject}
 }
 
 func c04EndToEnd(r *Run) {
@@ -305,6 +306,8 @@ func c04EndToEnd(r *Run) {
 
 func c04One(r *Run, rig *Rig, crec *Recorder, kind string, reqMD metadata.MD, plan hdrPlan, serialise bool) {
 	var seenReq map[string][]string
+	rejectAccepted := false
+	_ = rejectAccepted
 	handlerErr := fmt.Errorf("planned failure")
 	applyHeaders := func(ctx context.Context, ss grpc.ServerStream) {
 		for i, md := range plan.Sets {
@@ -351,6 +354,12 @@ func c04One(r *Run, rig *Rig, crec *Recorder, kind string, reqMD metadata.MD, pl
 				if _, err := recvB(ss); err != nil {
 					break
 				}
+			}
+		}
+		if plan.Reject {
+			// a message the codec cannot marshal: SendMsg fails, nothing leaves, the stream carries on
+			if err := ss.SendMsg("not a proto message"); err == nil {
+				rejectAccepted = true
 			}
 		}
 		if method != mCliStream || !plan.Fail {
